@@ -115,6 +115,12 @@ func checkC08(c *an.Ctx) {
 					c.OK(rule1, key, x.Pos(), "method of Task (API): reachability checked below")
 					c.Site(rule1, key+" task-method")
 				default:
+					// an unexported helper writing through a pointer parameter: the obligation moves to its call sites
+					if why, ok := freshAtCallSites(p, fn, fa.X, 2); ok {
+						c.OK(rule1, key, x.Pos(), "written through a parameter that every caller binds to an object it allocated itself (%s)", why)
+						c.Site(rule1, key+" fresh-at-callers")
+						return
+					}
 					c.Bad(rule1, key, x.Pos(), "%s writes Task.%s through %s, a task object it did not allocate: the value is visible to every other stage, pipeline, watcher or direct run that uses the task", an.Short(fn), name, an.Prov(fa.X))
 				}
 			case *ssa.Call:
@@ -343,7 +349,7 @@ func stageLayering(c *an.Ctx, rule string) {
 		"Variables": {{"Stage.Variables"}, {"Task.Variables", "Stage.Variables"}, {"Task.Variables"}},
 	}
 	for _, field := range []string{"Env", "Variables"} {
-		sts := an.StoresToField(f, target, field)
+		sts := c.P.StoresToFieldDeep(f, target, field, 2)
 		key := an.Short(f) + ":copy." + field
 		if len(sts) == 0 {
 			c.Bad(rule, key, f.Pos(), "the stage's %s is never layered over the task's", strings.ToLower(field))
@@ -377,19 +383,25 @@ func stageLayering(c *an.Ctx, rule string) {
 		c.Check(both, rule, key+":merge", f.Pos(), "when both are set the stage layer is merged over the task layer", "no branch merges the stage's "+field+" over the task's: the task's own settings are replaced")
 	}
 	// Dir
-	dsts := an.StoresToField(f, target, "Dir")
+	dsts := c.P.StoresToFieldDeep(f, target, "Dir", 2)
 	if len(dsts) == 0 {
 		c.Bad(rule, an.Short(f)+":copy.Dir", f.Pos(), "the stage's dir is never applied to the stage's copy of the task")
 	}
+	isStageDir := func(v ssa.Value) bool {
+		ap := an.AccessPath(v)
+		if ap.LastField() == "Dir" && an.SameValue(ap.Base, stage) {
+			return true
+		}
+		// handed over through a helper's parameter or a struct value
+		return c.P.DeepFieldProvCallers(v) == "Stage.Dir"
+	}
 	for _, st := range dsts {
-		ap := an.AccessPath(st.Val)
-		okVal := ap.LastField() == "Dir" && an.SameValue(ap.Base, stage)
+		okVal := isStageDir(st.Val)
 		guarded := false
 		for _, g := range an.Guards(st.Block()) {
 			if bo, ok := g.Cond.(*ssa.BinOp); ok {
 				if s1, ok := an.ConstString(bo.Y); ok && s1 == "" {
-					gp := an.AccessPath(bo.X)
-					if gp.LastField() == "Dir" && an.SameValue(gp.Base, stage) && ((bo.Op == token.NEQ) == g.Outcome) {
+					if isStageDir(bo.X) && ((bo.Op == token.NEQ) == g.Outcome) {
 						guarded = true
 					}
 				}
@@ -397,4 +409,52 @@ func stageLayering(c *an.Ctx, rule string) {
 		}
 		c.Check(okVal && guarded, rule, an.Short(f)+":copy.Dir", st.Pos(), "copy's dir := stage.Dir when it is non-empty", "the copy's dir is not set from a non-empty stage.Dir")
 	}
+}
+
+// freshAtCallSites reports whether v, a pointer parameter of the unexported
+// function fn, is bound at every module call site to an object the caller
+// allocated itself (or to the caller's own parameter, discharged the same way).
+func freshAtCallSites(p *an.Prog, fn *ssa.Function, v ssa.Value, depth int) (string, bool) {
+	var prm *ssa.Parameter
+	for _, r := range an.ResolveAll(v) {
+		if q, ok := r.(*ssa.Parameter); ok && q.Parent() == fn {
+			prm = q
+		}
+	}
+	if prm == nil || fn.Object() == nil || fn.Object().Exported() {
+		return "", false
+	}
+	idx := -1
+	for i, q := range fn.Params {
+		if q == prm {
+			idx = i
+		}
+	}
+	sites := p.CallSitesOf(fn)
+	if idx < 0 || len(sites) == 0 {
+		return "", false
+	}
+	var callers []string
+	for _, site := range sites {
+		args := site.Common().Args
+		ai := idx
+		if site.Common().IsInvoke() {
+			ai--
+		}
+		if ai < 0 || ai >= len(args) {
+			return "", false
+		}
+		if fresh, _ := an.FreshBase(args[ai]); fresh {
+			callers = append(callers, an.Short(site.Parent()))
+			continue
+		}
+		if depth > 0 {
+			if _, ok := freshAtCallSites(p, site.Parent(), args[ai], depth-1); ok {
+				callers = append(callers, an.Short(site.Parent()))
+				continue
+			}
+		}
+		return "", false
+	}
+	return strings.Join(callers, ", "), true
 }
